@@ -1,6 +1,6 @@
 #!/bin/bash
 # tools/seedkit/process.sh <PROP> [variants]  - confirm both variants in the scratch worktree and import the confirmed ones
-prop=$1; vs=${2:-"o p"}
+prop=$1; vs=${2:-"q r"}
 for v in $vs; do
   /verif/tools/seedkit/confirm.sh $prop $v
   python3 /verif/tools/import_seeded.py $prop $v || echo "NOT IMPORTED $prop$v"
